@@ -115,12 +115,15 @@ func TestProp(t *testing.T) {
 		return
 	}
 	r.SetRule("enumerated: token kind {mic,wrap} x etype {16,17,18,19,20,23} x payload length 0..300 x flags 0..7 x seq {0,1,2^32-1,2^32,2^63,2^64-1} x usage {22,23,24,25} " +
-		"(quick: 12 of the 192 (flags,seq,usage) combinations per (kind,etype,length), stride 17 with a length-dependent start so that all 192 occur for every etype; thorough: all); " +
-		"each token is built by gokrb5 (struct literal with EC = checksum length, SetCheckSum/SetChecksum, Marshal) and by ref/gss and compared octet by octet, unmarshalled with both expected directions, " +
-		"verified untouched (gokrb5-built and reference-built). A seeded 1/16 sample of the tokens gets the negatives: every single-bit flip of the token under the receiver's expected direction and every header bit flip " +
-		"under the opposite one, every truncation, 1-octet extensions, every wrong filler value, each of payload/flags/seq/key/usage changed between SetCheckSum and Verify, other keys and usages on the decoded token; " +
-		"the expected outcome of every transformed token is what ref/gss (decode per RFC 4121 for the expected direction, then verify) says for the transformed octets. " +
-		"All 65536 TOK_ID values per kind and etype; NewInitiatorWrapToken/NewInitiatorMICToken for every etype x length. distinct = (kind,etype,len,flags,seq,usage[,transformation]); all non-trivial")
+		"(quick: 12 of the 192 (flags,seq,usage) combinations per (kind,etype,length), stride 17 with a length-dependent start so that all 192 occur for every etype; thorough: all 192); " +
+		"3 seeded keys per etype, seeded payload octets. Each token is built by gokrb5 (struct literal with EC = checksum length, SetCheckSum/SetChecksum, Marshal) and by ref/gss and compared octet by octet; " +
+		"equal octets are unmarshalled (fields = input fields = reference fields, re-Marshal = same octets) with the matching expected direction, must be rejected with the other one, and must verify (struct just built, and decoded token). " +
+		"A seeded 1/16 sample of the tokens gets the negatives: every single-bit flip of the token under the receiver's expected direction and every header bit flip also " +
+		"under the opposite one, every truncation (and for Wrap every prefix of a header with EC=0, tokens without checksum), 1-octet extensions, all 255 wrong values of every filler octet (one case per octet), " +
+		"each of payload/flags/seq/key/usage changed between SetCheckSum and Verify on the struct, other keys, key types and usages on the decoded token, for MIC other presented payloads; " +
+		"the expected outcome of every transformed token is what ref/gss (decode per RFC 4121 for the expected direction, then verify) says for the transformed octets, and wrong TOK_ID / filler / direction must already fail in Unmarshal. " +
+		"All 65536 TOK_ID values for one token per kind and etype; NewInitiatorWrapToken/NewInitiatorMICToken for every etype x length judged by the reference receiver with all four usages. " +
+		"distinct = (kind,etype,len,flags,seq,usage[,transformation]); all cases non-trivial")
 	r.Assume("reference tokens ref/gss (RFC 4121 4.2.4-4.2.6, written from the RFC) over ref/kcrypto checksums; self-tested on every run (hand-assembled tokens for all etypes, one captured acceptor Wrap token, rotation, own bit flips)")
 	r.Assume("the caller of the struct-literal API sets WrapToken.EC to the checksum length of the key's etype (as NewInitiatorWrapToken and gokrb5's own tests do)")
 	r.Note("RRC exemption: gokrb5 does not implement the right rotation of RFC 4121 4.2.5 and the statement does not mention RRC. Tokens that differ from an accepted token only in bits of the RRC field, and round trips with a non-zero RRC, are counted (observe_rrc_*) and not judged against the reference")
